@@ -114,12 +114,13 @@ def generate(seed: int, tier: str = "quick") -> Dict[str, Any]:
             else:
                 op["style"] = rng.choice(["tight", "spaced", "star"])
                 op["suffix"] = rng.random() < 0.4
+                op["split"] = rng.random() < 0.4
         elif k == "parse":
             lines = []
             for _ in range(rng.randint(1, 3)):
                 lines.append({"r": _side(rng, species, 2), "p": _side(rng, species, 2),
                               "rule": rng.choice(rules + [None]), "style": rng.choice(["tight", "spaced", "star"]),
-                              "suffix": rng.random() < 0.4})
+                              "suffix": rng.random() < 0.4, "split": rng.random() < 0.4})
             op["lines"] = lines
             op["form"] = rng.choice(["strs", "tuples", "rules_arg", "mapping"])
         elif k == "remove_rxn":
@@ -210,13 +211,17 @@ def _fmt_side(side: List[List[Any]], fmt: str) -> Any:
     raise ValueError(fmt)
 
 
-def _str_side(side: List[List[Any]], style: str) -> str:
+def _str_side(side: List[List[Any]], style: str, split_terms: bool = False) -> str:
     d = _norm(side)
     zeros = [s for s, c in side if c == 0 and s not in d]   # "0A" terms must be dropped by the parser
     if not d and not zeros:
         return "∅" if style == "spaced" else ""
+    if split_terms:
+        terms = [(s, c) for s, c in side if c > 0]          # a species may appear in several terms: "A + 2A"
+    else:
+        terms = list(d.items())
     parts = []
-    for s, c in list(d.items()) + [(z, 0) for z in zeros[:1]]:
+    for s, c in terms + [(z, 0) for z in zeros[:1]]:
         if c == 1:
             parts.append(s)
         elif style == "tight":
@@ -229,7 +234,8 @@ def _str_side(side: List[List[Any]], style: str) -> str:
 
 
 def _rxn_str(line: Dict[str, Any]) -> str:
-    s = _str_side(line["r"], line["style"]) + (" >> " if line["style"] == "spaced" else ">>") + _str_side(line["p"], line["style"])
+    sp_ = bool(line.get("split"))
+    s = _str_side(line["r"], line["style"], sp_) + (" >> " if line["style"] == "spaced" else ">>") + _str_side(line["p"], line["style"], sp_)
     if line.get("suffix") and line.get("rule"):
         s += f" | rule={line['rule']}"
     return s
@@ -313,12 +319,19 @@ def check_net(H: CRNHyperGraph, M: Model, site: str, cond: str, other: bool) -> 
     for k in set(want) | set(got_sparse):
         if want.get(k, 0) != got_sparse.get(k, 0):
             _fail(site, wrap("incidence_mismatch"), cond, {"entry": list(k), "want": want.get(k, 0), "got": got_sparse.get(k, 0)})
+    try:                                  # returned lists / dict / array belong to the caller: editing them must not matter later
+        mapping0.clear(); so0.clear(); eo0.clear()
+    except Exception:
+        pass
     if mat.shape != (len(so), len(eo)):
         _fail(site, wrap("incidence_mismatch"), cond, {"shape": list(mat.shape)})
     for i, s in enumerate(so):
         for j, eid in enumerate(eo):
             if int(mat[i, j]) != want.get((s, eid), 0):
                 _fail(site, wrap("incidence_mismatch"), cond, {"entry": [s, eid], "want": want.get((s, eid), 0), "got": int(mat[i, j])})
+    if mat.size:
+        mat.fill(77)
+    mapping.clear()
 
 
 # ---------------------------------------------------------------------------
@@ -593,7 +606,14 @@ def _run(case: Dict[str, Any], sim: Sim, world: World) -> None:
             if sorted(repr((x[1], x[2], x[3])) for x in src_snapshot) != sorted(map(repr, actual.values())):
                 _fail("merge", "reaction_lost_or_overwritten", cond_for(i),
                       {"expected_new": len(src_snapshot), "new_ids": new_ids, "dst_ids_before": sorted(before)})
-            # (whether merge preserves a free source id is not part of the property: not asserted)
+            # ids: with prefix_edges=False and NO id collision at all (so nothing had to be renumbered) every merged
+            # reaction must still be found under its own (source) id; how collisions are renumbered is not asserted
+            if not op["prefix"] and i != j and not any(x[0] in before for x in src_snapshot) \
+                    and len({x[0] for x in src_snapshot}) == len(src_snapshot):
+                for sid, rule, r, p in src_snapshot:
+                    if actual.get(sid) != (rule, r, p):
+                        _fail("merge", "explicit_id_not_honoured", "prefix_edges=False, no id collision",
+                              {"src_id": sid, "new_ids": sorted(actual)})
             for nid, val in actual.items():
                 M.rx[nid] = val
                 for s_ in set(val[1]) | set(val[2]):
